@@ -47,7 +47,7 @@ def run(tier, seed):
                     for i in range(n):
                         pre += ' and ' + QUICK % ((i,) * 7)
                     if n == 4:
-                        pre += ' and m0 != 10 and m3 != 9 and m1 != 9 and m2 != 7'
+                        pre += ' and m0 != 10 and m0 != 1 and m3 != 9 and m3 != 2 and m1 != 9 and m1 != 0 and m2 != 7 and m2 != 1'
                     new = 'check_h%d_v%d_f%d' % (hh, via, form)
                     qs.append(Query(new, src + '\n\n' + copy_fn(src, 'check', new, pre), new, 'main', 400, per_path=60, meta={}, label='E'))
                 else:
